@@ -27,8 +27,9 @@ Init16 == InitWith({TRUE}, {FALSE}, { [state |-> "absent", l |-> None, sp |-> "o
 Next16 == \/ \E v \in DOMAIN views, x \in Locs, t \in BOOLEAN : SetLocale(v, x, t)
           \/ \E v \in DOMAIN views : ScopeView(v)
           \/ \E v \in DOMAIN views, o \in AccOptions : MakeAccessor(v, o[1], o[2])
-          \/ \E parent \in DOMAIN ctxs, initial \in {None, "de"} :
-                CreateSub(parent, FALSE, [state |-> "absent", l |-> None, sp |-> "other"], initial, <<>>)
+          \/ \E parent \in DOMAIN ctxs, initial \in {None, "de"}, via \in {"init", "provider"} :
+                CreateSubVia(parent, FALSE, [state |-> "absent", l |-> None, sp |-> "other"], initial, <<>>, via)
+          \/ \E c \in DOMAIN ctxs : Lookup(c)
 
 MCInit == IF Mode = "c15" THEN Init15 ELSE Init16
 MCNext == IF Mode = "c15" THEN Next15 ELSE Next16
